@@ -29,6 +29,7 @@ import c09
 from printcore import STDOUT, entry_matches
 
 CHANNEL = 'main:channel-problem'
+FORMULA_TEXT = '\x00the formula\x00'        # what reading the formula channel yields: a sentinel the tokenizer stub recognises
 
 
 def option(v=None):
@@ -158,7 +159,11 @@ def install_main_hooks(I, w, cfg, sk, st):
             return cfg['files'][t[5:]]
         if t.startswith('inline:') and t != cfg['channel']:
             return t[7:]
-        raise Unsupported('main reads the formula channel %s itself (the formula text is symbolic)' % t)
+        if t == cfg['channel']:
+            # main reads the formula itself (to hand the text on): it gets a sentinel; tokenizing the sentinel is
+            # tokenizing the formula
+            return FORMULA_TEXT
+        raise Unsupported('main reads %s, which the configuration does not define' % t)
 
     def lines(I2, fr, a, ck):
         text = content_of(I2, fr, a[0])
@@ -168,6 +173,16 @@ def install_main_hooks(I, w, cfg, sk, st):
         return IterV('vals', [Seq([mk('Result', 0, [Str(l[:-1] if l.endswith('\r') else l)]) for l in ls]), 0])
     T[('BufReader', 'BufRead', 'lines')] = lines
     T[(None, 'BufRead', 'lines')] = lines
+
+    def read_to_string(I2, fr, a, ck):
+        text = content_of(I2, fr, a[0])
+        old = I2.peel_all(a[1], fr)
+        if not (isinstance(old, Str) and isinstance(old.s, str)):
+            raise Unsupported('read_to_string into a non-concrete String')
+        MM.write_mref(I2, fr, a[1], Str(old.s + text))
+        return mk('Result', 0, [len(text)])
+    for ty in ('Box', 'BufReader', 'File', 'Stdin', None):
+        T[(ty, 'Read', 'read_to_string')] = read_to_string
     T[('String', None, 'as_bytes')] = lambda I2, fr, a, ck: mk_sref(I2.peel_all(a[0], fr))
     T[('str', None, 'as_bytes')] = T[('String', None, 'as_bytes')]
     T[('Instant', None, 'now')] = lambda I2, fr, a, ck: Opaque('Instant')
@@ -225,6 +240,8 @@ def install_main_hooks(I, w, cfg, sk, st):
 
     def tokenize(I2, fr, a):
         tag = reader_tag(I2, fr, a[0])
+        if tag == 'inline:' + FORMULA_TEXT:
+            tag = cfg['channel']            # the formula text main read from the right channel and passes on
         ordv = a[1]
         has_ord = isinstance(ordv, Adt) and 1 in ordv.alts and g_true(ordv.alts[1][0])
         want = cfg['channel']
@@ -245,6 +262,21 @@ def install_main_hooks(I, w, cfg, sk, st):
             return mk('Result', 0, [Seq(toks)])
         if tag != want:
             st.setdefault('problems', []).append('the formula is read from %r, the command line names %r' % (tag, want))
+        from_parser = any(key == ('ParsedFormula', None, 'new_with_env') for key, _ in I2.call_stack)
+        if cfg.get('ordering') and not from_parser and not has_ord:
+            # main itself tokenizes the formula (without an ordering): the tokenizer's contract numbers the variables
+            # by first appearance - defined here only when the sketch's variable occurrences are concrete
+            occ = concrete_occurrences(st['shape'])
+            if occ is None:
+                raise Unsupported('main tokenizes the formula itself under -o: needs a sketch with concrete variable occurrences')
+            ids = {}
+            toks = []
+            for i in occ:
+                nm = cfg['names'][i]
+                ids.setdefault(nm, len(ids))
+                toks.append(mk('SymbolicBDDToken', tv('Var'), [mk_struct('NamedSymbol', [mk_rc(Str(nm)), ids[nm]])]))
+            toks.append(mk('SymbolicBDDToken', tv('Eof'), []))
+            return mk('Result', 0, [Seq(toks)])
         if cfg.get('ordering'):
             if not has_ord:
                 st.setdefault('problems', []).append('-o is given but no ordering vector reaches the parser')
@@ -308,6 +340,33 @@ def install_main_hooks(I, w, cfg, sk, st):
 
 class StubProblem(Exception):
     pass
+
+
+def concrete_occurrences(shape):
+    """variable occurrences of a sketch shape in text order when all of them are concrete ('VC' leaves, no binders),
+    else None"""
+    if isinstance(shape, str):
+        return None if shape in ('L', 'V') else []
+    kind = shape[0]
+    if kind == 'VC':
+        return [shape[1]]
+    if kind in ('L', 'V', 'q', 'fp'):
+        return None
+    out = []
+    subs = shape[1:]
+    if kind == 'bin':
+        subs = shape[1:3]
+    elif kind == 'cc':
+        subs = shape[1]
+    elif kind == 'cv':
+        subs = list(shape[1]) + list(shape[2])
+    for sub in subs:
+        if isinstance(sub, (tuple, str)):
+            r = concrete_occurrences(sub)
+            if r is None:
+                return None
+            out += r
+    return out
 
 
 def prepare(I, st, w, names):
@@ -569,12 +628,13 @@ def unit_main(cfg, shape, k, opts):
                               gand(rsel[1], *[gor(gnot(a), b) for a, b in zip(rt, exp)]))
             else:
                 okv = evalcore.result_tt_eq(w, root, exp)
-            n = len(hdrs.items) - 1
+            # the recursion reads headers[i] for the i-th free variable only: what comes after them is not observable
+            n = len(entries.items)
             okh = False
-            for S in (subsets(k, n) if 0 <= n <= k else []):
+            for S in (subsets(k, n) if 0 <= n <= k and len(hdrs.items) >= n else []):
                 cond = gand(*[(free[i] if i in S else gnot(free[i])) for i in range(k)])
-                okh = gor(okh, gand(cond, *([Veq().eq(hdrs.items[j], Str(names[S[j]])) for j in range(n)] + [Veq().eq(hdrs.items[n], Str('*'))])))
-            oke = len(entries.items) == n and all(isinstance(e, Adt) and e.ty == 'TruthTableEntry' and set(e.alts) == {2} for e in entries.items)
+                okh = gor(okh, gand(cond, *[Veq().eq(hdrs.items[j], Str(names[S[j]])) for j in range(n)]))
+            oke = all(isinstance(e, Adt) and e.ty == 'TruthTableEntry' and set(e.alts) == {2} for e in entries.items)
             bad_v = gor(bad_v, gand(r.guard, gnot(gand(okv, okh, oke))))
     res = dict(queries=[], method='main', outcomes=len(rets))
     cex = None
@@ -893,7 +953,15 @@ def jobs_output(quick):
     add(dict(E, truthtable=True, benchmark=2), Q1, 3)
     add(dict(E, truthtable=True, model=True), B2, 3)
     add(dict(E, vars=True), B2, 3)
+    add(dict(E, vars=True), Q1, 3)
+    add(dict(E, vars=True), ('bin', ('q', 1, 'L'), 'L'), 3)
     add(dict(E, truthtable=True, vars=True, export_ordering=True), B2, 2)
+    # the same ordering file through every input channel
+    for chan in (dict(E), dict(input='f.txt', channel='file:f.txt'), dict(channel='stdin')):
+        files = {'o.txt': 'b a'}
+        if chan.get('input'):
+            files['f.txt'] = ''
+        add(dict(chan, truthtable=True, ordering='o.txt', files=files, names=['a', 'b']), B2, 2)
     if not quick:
         for sh in [('ite', 'L', 'L', 'L'), ('bin', 'L', ('bin', 'L', 'L')), ('cc', ('L', 'L', 'L')), ('fp', ('bin', 'L', 'L')), ('q', 2, ('bin', 'L', 'L'))]:
             add(dict(E, truthtable=True, filter='symbolic'), sh, 3, timeout=1500)
@@ -919,6 +987,15 @@ def jobs_ordering(quick):
         names = list(nm)
         cfg = dict(E, truthtable=True, export_ordering=True, ordering='o.txt', files={'o.txt': text}, names=names)
         js.append(('main [%s] sketch %r over %s' % (cfg_text(cfg), B2, names), unit_main, (cfg, B2, len(names), {})))
+    # sketches whose variable occurrences are concrete (only the operators are unknown): supersets with several unused
+    # names in a row, in front of / between the used ones
+    VCS = [(('bin', ('VC', 0), ('VC', 1)), ['a', 'b']), (('bin', ('VC', 1), ('bin', ('VC', 0), ('VC', 1))), ['a', 'b']), (('ite', ('VC', 2), ('VC', 0), ('VC', 1)), ['a', 'b', 'c'])]
+    for text in (['x y b a', 'b x y z a', 'x y z a b c', 'a b'] if quick else ['x y b a', 'b x y z a', 'x y z a b c', 'a b', 'x b y z w a', 'c x y a\nz b', 'x y']):
+        for sh, names in VCS[:2 if quick else 3]:
+            cfg = dict(E, truthtable=True, export_ordering=True, ordering='o.txt', files={'o.txt': text}, names=names)
+            if len([n for n in names if n not in reference_identifiers(text)]) > 1:
+                continue
+            js.append(('main [%s] sketch %r over %s' % (cfg_text(cfg), sh, names), unit_main, (cfg, sh, len(names), {})))
     cfg = dict(E, truthtable=True, ordering='o.txt', files={'o.txt': 'c b a'}, names=['a', 'b', 'c'], filter='symbolic')
     js.append(('main [%s] sketch %r' % (cfg_text(cfg), Q1), unit_main, (cfg, Q1, 3, {})))
     cfg = dict(E, truthtable=True, export_ordering=True)
